@@ -30,7 +30,9 @@ RULE = ("Hypothesis-generated RDM stacks (1-3 RDMs over 3-6 conditions; dyadic-g
         "compare() before/after strictly increasing maps (affine, cube, exp, library sqrt/rank/"
         "minmax transforms - order-isomorphism verified on the values) for the rank measures, "
         "positive scaling for cosine types, positive affine maps for correlation types, on either "
-        "or both arguments; eval_fixed with rank measures before/after sqrt_transform. "
+        "or both arguments; eval_fixed with rank measures before/after sqrt_transform; "
+        "0/1 model RDMs (category masks, free patterns) stored as bool / uint8 / int8 / int32 vs the "
+        "same numbers as float64 after a*x(+b), all nine measures. "
         "Non-trivial: ties or negatives or NaN present (transforms), thresholds strictly inside "
         "the value range (geo-topological), a removed edge that forces a detour (geodesic), a "
         "non-identity map (invariance); distinct by SHA1 of the case.")
@@ -657,6 +659,76 @@ def classify_evalfixed(case):
             'sqrt:data+models' if case['sqrt_models'] else 'sqrt:data'], True
 
 
+# ---- sub-check: 0/1 model RDMs held as boolean / small-integer arrays ----------------------------------
+
+STORAGE = ['bool', 'bool', 'bool', 'uint8', 'int8', 'int32']
+ALL_MEASURES = COS_MEASURES + CORR_MEASURES + RANK_MEASURES
+
+
+@st.composite
+def storage_case(draw):
+    """a 0/1 model stack (category 'different group' masks or free 0/1 patterns, never constant)
+    stored as bool / small ints, against a float data stack; the same numbers as float64 after
+    the positive scaling / affine / increasing map the measure is invariant under"""
+    n = draw(st.integers(3, 6))
+    length = ref.n_pairs(n)
+    n_model = draw(st.integers(1, 3))
+    masks = []
+    for _ in range(n_model):
+        if draw(st.booleans()):
+            cat = draw(st.lists(st.integers(0, 2), min_size=n, max_size=n))
+            v = [int(cat[i] != cat[j]) for (i, j) in ref.pairs(n)]
+        else:
+            v = draw(st.lists(st.integers(0, 1), min_size=length, max_size=length))
+        if max(v) == min(v):
+            v[0] = 1 - v[0]
+        masks.append(v)
+    method = draw(st.sampled_from(ALL_MEASURES))
+    cls = 'cos' if method in COS_MEASURES else 'corr' if method in CORR_MEASURES else 'rank'
+    kind = draw(st.sampled_from(['pos', 'grid', 'float']))
+    data = draw(U.vectors(draw(st.integers(1, 3)), length, kind))
+    a = draw(st.sampled_from(SCALES))
+    b = 0.0 if cls == 'cos' else float(draw(gen.grid_float(kmax=64, mmax=2)))
+    return dict(n_cond=n, masks=masks, data=data, method=method, cls=cls, kind=kind, a=a, b=b,
+                dtype=draw(st.sampled_from(STORAGE)),
+                position=draw(st.sampled_from(['first', 'second', 'both'])),
+                form=draw(st.sampled_from(['RDMs', 'RDMs', 'ndarray'])))
+
+
+def check_storage(case):
+    m = case['method']
+    stored = np.array(case['masks'], dtype=case['dtype'])
+    held = RDMs(stored.copy())
+    if np.asarray(held.dissimilarities).dtype != stored.dtype:
+        # the object converted the values itself: the class 'stored as bool' is not reached
+        raise Reject('RDMs does not keep dtype %s' % case['dtype'], 'harness:storage-dtype')
+    arg = held if case['form'] == 'RDMs' else stored.copy()
+    as_float = np.array(case['masks'], dtype=float) * case['a'] + case['b']
+    data = np.array(case['data'], dtype=float)
+
+    def run(x, y):
+        return np.asarray(lib(C.compare, x, y, method=m, on_error='violation',
+                              sig='raises:compare:' + m), dtype=float)
+    if case['position'] == 'first':
+        got, want = run(arg, RDMs(data.copy())), run(RDMs(as_float), RDMs(data.copy()))
+    elif case['position'] == 'second':
+        got, want = run(RDMs(data.copy()), arg), run(RDMs(data.copy()), RDMs(as_float))
+    else:
+        got, want = run(arg, arg), run(RDMs(as_float), RDMs(as_float.copy()))
+    require_close(got, want, '%s with the 0/1 stack %s stored as %s (%s, %s argument) vs the same numbers '
+                  'as float64 mapped by x -> %r*x + %r' % (
+                      m, core._short(stored.astype(int)), case['dtype'], case['form'], case['position'],
+                      case['a'], case['b']),
+                  'invariance:stored-%s:%s' % ('bool' if case['dtype'] == 'bool' else 'int', m),
+                  rtol=1e-9, atol=1e-9)
+
+
+def classify_storage(case):
+    return ['method:' + case['method'], 'class:' + case['cls'], 'dtype:' + case['dtype'],
+            'position:' + case['position'], 'form:' + case['form'],
+            'map:' + ('identity' if case['a'] == 1.0 and case['b'] == 0.0 else 'scaled')], True
+
+
 SUBCHECKS = [
     SubCheck('rank', rank_case(), check_rank, classify_rank, quick=600,
              doc='rank_transform: tie-aware ranks among non-missing entries per RDM, five methods; '
@@ -673,4 +745,8 @@ SUBCHECKS = [
                  '(cosine types), positive affine maps (correlation types) of either argument'),
     SubCheck('eval_fixed', evalfixed_case(), check_evalfixed, classify_evalfixed, quick=200,
              doc='eval_fixed with rank measures identical before/after sqrt_transform of non-negative RDMs'),
+    SubCheck('storage', storage_case(), check_storage, classify_storage, quick=300,
+             doc='compare() of 0/1 model RDMs stored as bool / small-integer arrays (RDMs object or '
+                 'ndarray, either or both arguments) equals compare() of the same numbers as float64 '
+                 'after a positive scaling (cosine types) / positive affine map (correlation, rank types)'),
 ]
